@@ -754,6 +754,62 @@ def not_none_filter(ifs, var: str) -> bool:
     raise TranslateError("unsupported comprehension filter " + ", ".join(ast.unparse(t) for t in ifs))
 
 
+def iteration_uses(stmts, name: str):
+    """How a branch uses the iterable argument `name`, in source order: 'materialise' (name = list(name) /
+    tuple(name)), 'len', 'dispatch' (iterated by a comprehension / for loop / <executor>.map), 'attr:<a>' (attribute
+    read), 'other' (anything else: iter(name), next(...), truth test, passing it on ...)."""
+    uses = []
+    for s in stmts:
+        parents = {}
+        for n in ast.walk(s):
+            for c in ast.iter_child_nodes(n):
+                parents[c] = n
+        for n in ast.walk(s):
+            if not (isinstance(n, ast.Name) and n.id == name and isinstance(n.ctx, ast.Load)):
+                continue
+            par = parents.get(n)
+            gp = parents.get(par)
+            if isinstance(par, ast.Call) and call_name(par) in ("list", "tuple") and len(par.args) == 1 \
+                    and isinstance(gp, ast.Assign) and len(gp.targets) == 1 and _same_name(gp.targets[0], name):
+                uses.append("materialise")
+            elif isinstance(par, ast.Call) and call_name(par) == "len":
+                uses.append("len")
+            elif isinstance(par, ast.Call) and call_name(par) == "display_progress" and par.args and par.args[0] is n \
+                    and isinstance(gp, (ast.comprehension, ast.For)) and gp.iter is par:
+                uses.append("dispatch")
+            elif isinstance(par, (ast.comprehension, ast.For)) and par.iter is n:
+                uses.append("dispatch")
+            elif isinstance(par, ast.Call) and isinstance(par.func, ast.Attribute) and par.func.attr == "map" \
+                    and n in par.args[1:]:
+                uses.append("dispatch")
+            elif isinstance(par, ast.Attribute) and par.value is n and isinstance(par.ctx, ast.Load) \
+                    and not (isinstance(gp, ast.Call) and gp.func is par):
+                uses.append("attr:" + par.attr)
+            else:
+                uses.append("other")
+    return uses
+
+
+def iterates_once(uses) -> bool:
+    """The argument is traversed exactly once (valid for generators and other one-shot iterables), or it is
+    materialised into a list / tuple before anything else looks at it."""
+    core = [u for u in uses if not u.startswith("attr:")]
+    if core and core[0] == "materialise":
+        return core.count("materialise") == 1 and "other" not in core[1:]
+    return core == ["dispatch"]
+
+
+def strip_peek_guards(stmts, name: str):
+    """Remove `if <test that mentions name>: return ...` guards (they are reported through iteration_uses)."""
+    out = []
+    for s in stmts:
+        if isinstance(s, ast.If) and not s.orelse and any(_same_name(n, name) for n in ast.walk(s.test)) \
+                and len(strip_noise(s.body)) == 1 and isinstance(strip_noise(s.body)[0], ast.Return):
+            continue
+        out.append(s)
+    return out
+
+
 def refine_droplets_facts(ia: ast.Module):
     fn = find_def(ia.body, "refine_droplets")
     sig, npos, kwarg = signature(fn)
@@ -782,6 +838,12 @@ def refine_droplets_facts(ia: ast.Module):
     if g.is_async or not isinstance(g.target, ast.Name):
         raise TranslateError(f"{what}: unsupported comprehension target")
     ser_iter = iter_root(g.iter, params, what)
+    # how often each branch traverses the candidates (one-shot iterables are valid `Iterable`s)
+    ser_once = iterates_once(iteration_uses(sb, ser_iter))
+    par_uses = iteration_uses(strip_noise(parallel_body), ser_iter)
+    par_once = iterates_once(par_uses)
+    if not par_once:
+        parallel_body = strip_peek_guards(strip_noise(parallel_body), ser_iter)
     left = not_none_filter(g.ifs, "")
     if left is False:
         # [refine_droplet(...) for c in candidates]
@@ -807,7 +869,8 @@ def refine_droplets_facts(ia: ast.Module):
         raise TranslateError(f"{what}: the parallel branch gathers differently depending on `{target['flag']}`")
     if how == "completion":
         return dict(np_param=np_param, serial_n=serial_n, ser_iter=ser_iter, par_iter="", ser_filter=ser_filter,
-                    par_filter=False, ser_call=ser_call, par_call="", rule=rule, gather="GatherCompletion")
+                    par_filter=False, ser_call=ser_call, par_call="", rule=rule, gather="GatherCompletion",
+                    ser_once=ser_once, par_once=par_once, par_uses=par_uses)
     if target != result:
         raise TranslateError(f"{what}: parallel branch does not assign the result")
     if not (isinstance(expr, ast.ListComp) and len(expr.generators) == 1
@@ -834,7 +897,8 @@ def refine_droplets_facts(ia: ast.Module):
     slot_node = ast.Name(id="_", ctx=ast.Load())
     par_call = describe_call(ast.unparse(part.args[0]), list(part.args[1:]) + [slot_node], pkws, pstar, slot_node)
     return dict(np_param=np_param, serial_n=serial_n, ser_iter=ser_iter, par_iter=par_iter, ser_filter=ser_filter,
-                par_filter=par_filter, ser_call=ser_call, par_call=par_call, rule=rule, gather="GatherByIndex")
+                par_filter=par_filter, ser_call=ser_call, par_call=par_call, rule=rule, gather="GatherByIndex",
+                ser_once=ser_once, par_once=par_once, par_uses=par_uses)
 
 
 def from_storage_facts(em: ast.Module, locate_sig):
@@ -1364,6 +1428,12 @@ def gen_glue() -> str:
     d("rd_parallel_filters_none", "bool", cbool(rd["par_filter"]))
     d("rd_serial_call", "string", cstr(rd["ser_call"]), "worker call, per-task argument written _")
     d("rd_parallel_call", "string", cstr(rd["par_call"]))
+    d("rd_parallel_uses_of_candidates", "list string", clist(cstr(u) for u in rd["par_uses"]),
+      "every use of the candidates argument in the parallel branch, in source order")
+    d("rd_serial_iterates_once", "bool", cbool(rd["ser_once"]),
+      "the branch traverses the candidates exactly once (or materialises them first): generators and other "
+      "one-shot iterables are handled")
+    d("rd_parallel_iterates_once", "bool", cbool(rd["par_once"]))
     out.append("\n(* ---- image_analysis.refine_droplet: option dicts handed in by the caller ---- *)")
     d("refine_option_dicts", "list string", clist(cstr(x) for x in ro["dicts"]), "dict-valued options of refine_droplet")
     d("refine_options_writes", "list string", clist(cstr(x) for x in ro["writes"]),
